@@ -1,7 +1,7 @@
 
 // ===== appended by /verif (cfg(kani) / cfg(besok_jsonpath_rust_verif) only): contract harnesses for eq / lt (C04) =====
 // Loop-free over the full machine domain (all i64, all finite f64): a pass is a complete proof.
-#[cfg(any(kani, besok_jsonpath_rust_verif))]
+#[cfg(any(kani, all(besok_jsonpath_rust_verif, feature = "vx_cmp")))]
 #[allow(dead_code, unused_imports)]
 pub(crate) mod verif_kani_cmp {
     use super::*;
